@@ -45,27 +45,31 @@ func Verif_C12_HTTP() {
 
 	err := ch.Invoke(context.Background(), name, &verifMsg{}, &verifMsg{})
 
-	// reference: which registered unary method does the cleaned name denote?
-	cleaned := path.Join("/", name)
+	// reference: the request path the client must produce for this name, compared
+	// with the paths the registered methods are served under (names with "." / ".."
+	// segments or doubled slashes are resolved against the base path, so they are
+	// compared after joining, not before)
+	cleaned := path.Join(base, name)
+	under := func(tag string) string { return path.Join(base, tag) }
 	zv.Assert(len(hooks.Ran) <= 1, "at-most-one-handler-runs")
 	if len(hooks.Ran) == 1 {
 		zv.Reach("handler-ran")
 		tag := hooks.Ran[0]
 		zv.Observe("ran", base, name, tag)
-		zv.Assert(cleaned == "/"+tag, "handler-ran-only-for-its-own-name")
+		zv.Assert(cleaned == under(tag), "handler-ran-only-for-its-own-name")
 		zv.Assert(tag == "a/U" || tag == "b/U", "unary-entry-runs-unary-handler")
 		zv.Assert(err == nil, "matched-call-succeeds")
 		return
 	}
 	zv.Reach("no-handler")
 	zv.Observe("rejected", base, name)
-	zv.Assert(cleaned != "/a/U" && cleaned != "/b/U", "registered-name-runs-its-handler")
+	zv.Assert(cleaned != under("a/U") && cleaned != under("b/U"), "registered-name-runs-its-handler")
 	zv.Assert(err != nil, "unknown-name-fails")
 	if err != nil {
 		st, ok := status.FromError(err)
 		zv.Assert(ok, "unknown-name-gives-status-error")
 		if ok {
-			isStreamPath := cleaned == "/a/S" || cleaned == "/a/C" || cleaned == "/a/R" || cleaned == "/b/S" || cleaned == "/b/C" || cleaned == "/b/R"
+			isStreamPath := cleaned == under("a/S") || cleaned == under("a/C") || cleaned == under("a/R") || cleaned == under("b/S") || cleaned == under("b/C") || cleaned == under("b/R")
 			if isStreamPath {
 				// a streaming method called through the unary entry point is refused
 				// by content type, not by path
